@@ -1,6 +1,7 @@
 package rules
 
 import (
+	"go/token"
 	"go/types"
 	"sort"
 	"strings"
@@ -344,7 +345,7 @@ func runC45(p *core.Prog, r *core.Report) {
 		}
 	}
 	// ---------------- R3 the flag the handlers ask has only the operator's writers
-	r3 := r.Rule("C45.R3", "the flag behind LocalNodeUnderMaintenance is written only by startMaintenance / stopMaintenance, and those are called only from the operator's status command (SetNetmapStatus / setMaintenanceStatus): nothing else — e.g. a network map update — can end maintenance", 4)
+	r3 := r.Rule("C45.R3", "the flag behind LocalNodeUnderMaintenance is written only by startMaintenance / stopMaintenance, and those are called only from the operator's status command, the switch-off only where ONLINE was asked for (SetNetmapStatus / setMaintenanceStatus): nothing else — e.g. a network map update — can end maintenance", 4)
 	nodeFns := p.FuncsIn("cmd/neofs-node")
 	if len(nodeFns) == 0 {
 		r.Fatalf("C45.R3: cmd/neofs-node is not loaded")
@@ -373,6 +374,22 @@ func runC45(p *core.Prog, r *core.Report) {
 		{Sink: "(*cmd/neofs-node.internals).stopMaintenance", MinSites: 1, Allowed: map[string]string{"(*cmd/neofs-node.cfg).SetNetmapStatus": "the operator's 'set status online'"}},
 		{Sink: "(*cmd/neofs-node.cfg).setMaintenanceStatus", MinSites: 1, Allowed: map[string]string{"(*cmd/neofs-node.cfg).SetNetmapStatus": "the operator's status command"}},
 	})
+	// the switch-off happens only on the operator's ONLINE command
+	if sn := p.Func("(*cmd/neofs-node.cfg).SetNetmapStatus"); sn == nil {
+		r.Fatalf("C45.R3: SetNetmapStatus not found")
+	} else if online, okK := p.ConstInt("github.com/nspcc-dev/neofs-node/pkg/services/control.NetmapStatus_ONLINE"); !okK {
+		r.Fatalf("C45.R3: control.NetmapStatus_ONLINE not found")
+	} else {
+		asked := core.Guard{Name: "online-was-asked-for", Comps: []core.Comp{{Result: -1, Kind: core.IsTrue}}, Value: func(f *ssa.Function, v ssa.Value) bool {
+			bo, ok := v.(*ssa.BinOp)
+			if !ok || bo.Op != token.EQL {
+				return false
+			}
+			k, isK := intConstOf(bo.Y)
+			return isK && k == online && core.ParamIndex(f, bo.X) == 1
+		}}
+		core.CheckEffectsFn(p, r3, sn, core.EffectRule{Min: 1, Guards: []core.Guard{asked}, Effect: core.CallTo("(*cmd/neofs-node.internals).stopMaintenance")})
+	}
 	// and the FSChain implementation the object service is given reads that very flag
 	if lm := p.Func("(*cmd/neofs-node.fsChainForObjects).LocalNodeUnderMaintenance"); lm == nil {
 		r.Fatalf("C45.R3: fsChainForObjects.LocalNodeUnderMaintenance not found")
